@@ -97,7 +97,7 @@ Section Optimizer.
     let gr1 := if rms_centered p
                then nadd N (nmul N (rms_alpha p) gr) (nmul N (nsub N one (rms_alpha p)) g1)
                else gr in
-    let v := if rms_centered p then nsub N vel1 (npowf2 N gr1) else vel1 in
+    let v := if rms_centered p then fmax (nsub N vel1 (npowf2 N gr1)) zero else vel1 in
     let denom := nadd N (nsqrt N v) (rms_eps p) in
     match rms_momentum p with
     | Some mo =>
